@@ -107,7 +107,7 @@ PRED = {
     "C09": {1: "window-exceeded", 2: "frame-larger-than-any-announced-max", 3: "frame-larger-than-acknowledged-max",
             4: "credit-not-returned", 5: "relay-does-not-terminate"},
     "C10": {1: "stream-content-differs", 2: "connection-frame-not-relayed", 3: "conforming-frame-refused",
-            4: "frame-stranded", 6: "frame-larger-than-receiver-accepts"},
+            4: "frame-stranded", 6: "frame-larger-than-receiver-accepts", 7: "data-beyond-the-receivers-window"},
 }
 
 
@@ -135,7 +135,7 @@ def classify(pid, pred, cj):
             detail = "hpack-decode-error-after-header-table-size-setting" if tab else "hpack-decode-error"
         elif steps and steps[-1].get("err"):
             detail = re.sub(r"[^a-z]+", "-", steps[-1]["err"].lower())[:60].strip("-")
-    elif pid == "C09" and pred == 1 and any(
+    elif ((pid == "C09" and pred == 1) or (pid == "C10" and pred == 7)) and any(
             sum(1 for s in (o.get("settings") or []) if s[0] == 4) > 1 for o in ops if o.get("kind") == "settings"):
         detail = "two-initial-window-sizes-in-one-settings-frame"
     elif pid == "C09" and pred == 3:
@@ -150,7 +150,7 @@ def classify(pid, pred, cj):
     return "%s/%s" % (name, detail)
 
 
-def run_property(ctx, pid, cmd, prop_file, level_extra, e2e=0):
+def run_property(ctx, pid, cmd, prop_file, level_extra, e2e=0, stress=0):
     ob_failed = []
     ok, msg = ctx.tables(GROUP)
     if not ok:
@@ -186,8 +186,12 @@ def run_property(ctx, pid, cmd, prop_file, level_extra, e2e=0):
             extra = ["-replay", inner]
             if isinstance(rp.get("replay", rp), dict) and rp.get("replay", rp).get("mitm_h2_handoff"):
                 extra = ["-mitm"]
+            if isinstance(rp.get("replay", rp), dict) and rp.get("replay", rp).get("initial_window_race"):
+                extra = ["-stress-only", "-stress", "40000"]
             if isinstance(rp.get("replay", rp), dict) and rp.get("replay", rp).get("e2e"):
                 extra += ["-e2e", "1"]   # the failure was seen in the end-to-end replay: play it there again
+        if stress and not ctx.replay:
+            extra = extra + ["-stress", str(stress if ctx.tier == "quick" else 10 * stress)]
         if e2e and not ctx.replay:
             extra = extra + ["-e2e", str(e2e if ctx.tier == "quick" else 10 * e2e)]
         m, cases, mbad, pbad, errors = runner.run("main", extra)
@@ -223,6 +227,10 @@ def run_property(ctx, pid, cmd, prop_file, level_extra, e2e=0):
         ctx.violation("preface-correspondence", {"preface_reads": pcs[i]["preface_reads"],
                       "unchecked": "correspondence forward_preface(model)/forwardPreface"}, False,
                       "model and implementation of forwardPreface differ: %s" % json.dumps(pcs[i])[:300])
+    sr = meta.get("initial_window_race")
+    if sr is not None and not sr.get("ok"):
+        ctx.violation("window-exceeded/initial-window-change-races-with-stream-creation", {"initial_window_race": sr}, True,
+                      "the two reading sides of the real relays running concurrently (rig.Race): %s" % sr.get("problem"))
     mh = meta.get("mitm_h2_handoff")
     if mh is not None and not mh.get("ok"):
         ctx.violation("mitm-h2-handoff/request-after-idle-not-relayed", {"mitm_h2_handoff": mh}, True,
@@ -267,6 +275,7 @@ def run_property(ctx, pid, cmd, prop_file, level_extra, e2e=0):
         "end_to_end_histories_through_Config_Proxy": int(meta.get("e2e_played", 0)),
         "end_to_end_failures": int(meta.get("e2e_failed", 0)),
         "mitm_h2_handoff_scenario": meta.get("mitm_h2_handoff"),
+        "initial_window_race_scenario": meta.get("initial_window_race"),
         "end_to_end_stopped_at_map_order_difference": int(meta.get("e2e_stopped_at_map_order_difference", 0)),
         "histories": int(meta.get("cases", 0)),
         "distinct_nontrivial": nontriv,
